@@ -528,6 +528,13 @@ fn sweep<W: Write>(out: &mut W, doc: &J) {
                     for t in ["", "USD", "usdx", "tgt", "xyz", "a|b|c", "2023-02-29T00:00:00", "Mon"] {
                         variants.push(J::Str(t.into()));
                     }
+                    // long strings with a multi-byte character starting at every byte offset 0..=40 (2-, 3- and
+                    // 4-byte encodings): any byte-indexed slicing of an echoed or truncated string hits a boundary
+                    for k in 0..=40usize {
+                        let c = ["\u{e9}", "\u{65e5}", "\u{1d11e}"][k % 3];
+                        variants.push(J::Str(format!("{}{}{}", "a".repeat(k), c, "bcdefghijklmnopqrstuvwxyz")));
+                    }
+                    variants.push(J::Str("\u{65e5}\u{672c}\u{8a9e}\u{306e}\u{30ab}\u{30ec}\u{30f3}\u{30c0}\u{30fc}\u{540d}".into()));
                 }
                 _ => {}
             }
